@@ -34,11 +34,11 @@ ASSUMPTIONS = [
     "the loaded-table set at each edit is a legitimate input and is held equal in the reference replica",
     "optional native dependencies present in /venv are used as installed; their presence is not varied here",
 ]
-EXPECTED_PROBES = ["order.pairs", "pipe.ok", "pipe.build", "pipe.merge", "pipe.instance", "pipe.fea", "pipe.subset", "pipe.ttx", "save.checked", "op.savexml", "op.failsave.compile", "op.failsave.dest", "lazy.True", "lazy.None", "lazy.False", "edit.reorder", "edit.subset", "edit.scale", "edit.instantiate"]
+EXPECTED_PROBES = ["hashsweep.runs_compared", "order.pairs", "pipe.ok", "pipe.build", "pipe.merge", "pipe.instance", "pipe.fea", "pipe.subset", "pipe.ttx", "save.checked", "op.savexml", "op.failsave.compile", "op.failsave.dest", "lazy.True", "lazy.None", "lazy.False", "edit.reorder", "edit.subset", "edit.scale", "edit.instantiate"]
 
 TIERS = {
-    "quick": {"budget_s": 170, "determinism_sample": 16, "n": {"hist": 2700, "hist_fail": 1000, "hist_ensure": 700, "second_save": 900, "clock": 400, "pipe": 500, "order": 40}, "minimise_s": 60, "max_minimise": 3},
-    "thorough": {"budget_s": 1500, "determinism_sample": 200, "n": {"hist": 16000, "hist_fail": 5000, "hist_ensure": 4000, "second_save": 1400, "clock": 1500, "pipe": 6000, "order": 500}, "minimise_s": 180, "max_minimise": 6},
+    "quick": {"budget_s": 170, "determinism_sample": 16, "n": {"hist": 2700, "hist_fail": 1000, "hist_ensure": 700, "second_save": 900, "clock": 400, "pipe": 500, "order": 40, "hashsweep": 16}, "minimise_s": 60, "max_minimise": 3},
+    "thorough": {"budget_s": 1500, "determinism_sample": 200, "n": {"hist": 16000, "hist_fail": 5000, "hist_ensure": 4000, "second_save": 1400, "clock": 1500, "pipe": 6000, "order": 500, "hashsweep": 320}, "minimise_s": 180, "max_minimise": 6},
 }
 
 OBSERVE_OPS = ["touch", "contains", "keys", "glyphorder", "glyphset", "bestcmap", "tabledata", "save", "savexml", "deepcopy", "revmap", "ensure_table"]
@@ -89,6 +89,7 @@ def batches(ctx):
         {"name": "clock", "n": n["clock"], "fault_free": True},
         {"name": "pipe", "n": n.get("pipe", 0), "fault_free": True},
         {"name": "order", "n": n.get("order", 0), "fault_free": True},
+        {"name": "hashsweep", "n": n.get("hashsweep", 0), "fault_free": True},
     ]
 
 
@@ -180,10 +181,10 @@ def _gen_op(r, batch, font_has_fvar):
 
 def generate(ctx, batch, idx):
     r = ctx.rng(batch, idx)
-    if batch == "pipe":
+    if batch in ("pipe", "pipeb"):
         from props import c16_pipes
 
-        return c16_pipes.generate(ctx, r, idx)
+        return c16_pipes.generate(ctx, r, idx, build_only=(batch == "pipeb"))
     key = _pick_font(r)
     if key is None:
         return None
@@ -230,6 +231,13 @@ def generate(ctx, batch, idx):
         from props import c16_pipes
 
         return c16_pipes.generate(ctx, r, idx)
+    if batch == "hashsweep":
+        # a chunk of runs executed in two fresh interpreters under different PYTHONHASHSEED values
+        keys = []
+        for _ in range(40):
+            b = r.choice(["pipeb", "pipeb", "pipeb", "pipe", "hist", "hist_ensure"])
+            keys.append([b, r.randrange(4000)])
+        return {"kind": "hashsweep", "ops": keys, "seeds": [r.randrange(1, 1 << 31), r.randrange(1, 1 << 31)], "font": None}
     if batch == "order":
         # replicas of one run in fresh interpreters: alone, alone under another PYTHONHASHSEED,
         # and after a prefix of other runs (process-history independence)
@@ -746,6 +754,8 @@ def execute(ctx, h):
         kind = h.get("kind", "hist")
         if kind == "order":
             return exec_order(ctx, h)
+        if kind == "hashsweep":
+            return exec_hashsweep(ctx, h)
         if kind == "pipe":
             from props import c16_pipes
 
@@ -763,6 +773,44 @@ def execute(ctx, h):
     finally:
         scratch.close()
         logging.disable(lvl)
+
+
+def _fresh(ctx, keys, hashseed="0", timeout=None):
+    import json
+    import subprocess
+    import sys
+    from sim import VERIF
+
+    spec = ",".join("%s:%d" % (b, i) for b, i in keys)
+    env = dict(os.environ, PYTHONHASHSEED=str(hashseed))
+    cmd = [sys.executable, os.path.join(VERIF, "check"), ID, "--run-many", spec, "--seed", str(ctx.seed), "--tier", ctx.tier]
+    cp = subprocess.run(cmd, capture_output=True, text=True, env=env, timeout=timeout or RUN_TIMEOUT_S - 20)
+    out = {}
+    for ln in cp.stdout.splitlines():
+        if ln.startswith("{"):
+            d = json.loads(ln)
+            out[tuple(d["key"])] = d.get("digest")
+    return out
+
+
+def exec_hashsweep(ctx, h):
+    keys = [tuple(k) for k in h["ops"]]
+    a = _fresh(ctx, keys, h["seeds"][0])
+    b = _fresh(ctx, keys, h["seeds"][1])
+    res = {"events": [sorted((list(k), v) for k, v in a.items())], "probes": {"hashsweep.chunks": 1}, "states": [], "known": [], "nontrivial": True}
+    n = 0
+    for k in keys:
+        if a.get(k) is None or b.get(k) is None:
+            continue
+        n += 1
+        if a[k] != b[k] and not res.get("violation"):
+            res["violation"] = {
+                "class": "output-depends-on-hash-seed",
+                "detail": "run %s:%d gives digest %s under PYTHONHASHSEED=%d but %s under PYTHONHASHSEED=%d (fresh interpreters, same run list)" % (k[0], k[1], a[k][:12], h["seeds"][0], b[k][:12], h["seeds"][1]),
+                "sig": {},
+            }
+    res["probes"]["hashsweep.runs_compared"] = n
+    return res
 
 
 def exec_order(ctx, h):
